@@ -16,6 +16,7 @@ import (
 	"go.opentelemetry.io/otel"
 	"go.opentelemetry.io/otel/attribute"
 	"go.opentelemetry.io/otel/metric"
+	"go.opentelemetry.io/otel/sdk/instrumentation"
 	sdkmetric "go.opentelemetry.io/otel/sdk/metric"
 	"go.opentelemetry.io/otel/sdk/metric/metricdata"
 
@@ -866,6 +867,103 @@ func runWide(k *vf.Case) {
 // runConcurrentCreate: several goroutines ask one meter for the same asynchronous instrument at the same
 // moment, each passing the same callback. The instrument exists once, so every cycle reports what ONE run of
 // that callback observed: value v on the delta side in the first cycle, v - previous afterwards, v cumulative.
+// runTwinScopes: two meters that share a name and differ in version, schema URL or scope attributes each own
+// an observable counter and an observable gauge of the same name, observed through Meter.RegisterCallback.
+// The streams are separate: per scope, the cumulative value is what that scope's callback observed and the
+// delta is that minus the same scope's previous observation.
+func runTwinScopes(k *vf.Case) {
+	r := k.R
+	ctx := context.Background()
+	del := sdkmetric.NewManualReader(sdkmetric.WithTemporalitySelector(func(sdkmetric.InstrumentKind) metricdata.Temporality { return metricdata.DeltaTemporality }))
+	cum := sdkmetric.NewManualReader()
+	mp := sdkmetric.NewMeterProvider(sdkmetric.WithReader(del), sdkmetric.WithReader(cum))
+	defer mp.Shutdown(ctx)
+	how := r.Intn(3)
+	var optB metric.MeterOption
+	switch how {
+	case 0:
+		optB = metric.WithInstrumentationVersion("v2")
+	case 1:
+		optB = metric.WithSchemaURL("https://example.com/schema/2")
+	default:
+		optB = metric.WithInstrumentationAttributes(attribute.String("tenant", "b"))
+	}
+	meters := []metric.Meter{mp.Meter("lib"), mp.Meter("lib", optB)}
+	isB := func(sc instrumentation.Scope) bool {
+		return sc.Version == "v2" || sc.SchemaURL != "" || sc.Attributes.Len() > 0
+	}
+	var cur [2]atomic.Int64
+	for i, m := range meters {
+		i := i
+		oc, err1 := m.Int64ObservableCounter("same")
+		og, err2 := m.Int64ObservableGauge("level")
+		if err1 != nil || err2 != nil {
+			k.Violate("instrument-creation-error", "twin scopes", fmt.Sprint(err1, err2), nil)
+			return
+		}
+		if _, err := m.RegisterCallback(func(_ context.Context, o metric.Observer) error {
+			o.ObserveInt64(oc, cur[i].Load(), metric.WithAttributes(attribute.String("k", "v")))
+			o.ObserveInt64(og, -cur[i].Load(), metric.WithAttributes(attribute.String("k", "v")))
+			return nil
+		}, oc, og); err != nil {
+			k.Violate("register-callback-error", "twin scopes", err.Error(), nil)
+			return
+		}
+	}
+	cur[0].Store(int64(10 + r.Intn(10)))
+	cur[1].Store(int64(1000 + r.Intn(100)))
+	var prev [2]int64
+	for cyc := 0; cyc < 4; cyc++ {
+		var rd, rc metricdata.ResourceMetrics
+		if err := del.Collect(ctx, &rd); err != nil {
+			k.Violate("collect-error", "twin scopes delta", err.Error(), nil)
+			return
+		}
+		if err := cum.Collect(ctx, &rc); err != nil {
+			k.Violate("collect-error", "twin scopes cumulative", err.Error(), nil)
+			return
+		}
+		get := func(rm *metricdata.ResourceMetrics) (sum [2][]int64, gauge [2][]int64) {
+			for _, sm := range rm.ScopeMetrics {
+				w := 0
+				if isB(sm.Scope) {
+					w = 1
+				}
+				for _, mt := range sm.Metrics {
+					switch d := mt.Data.(type) {
+					case metricdata.Sum[int64]:
+						for _, p := range d.DataPoints {
+							sum[w] = append(sum[w], p.Value)
+						}
+					case metricdata.Gauge[int64]:
+						for _, p := range d.DataPoints {
+							gauge[w] = append(gauge[w], p.Value)
+						}
+					}
+				}
+			}
+			return
+		}
+		ds, dg := get(&rd)
+		cs, cg := get(&rc)
+		for w := 0; w < 2; w++ {
+			v := cur[w].Load()
+			ok := len(ds[w]) == 1 && len(cs[w]) == 1 && len(dg[w]) == 1 && len(cg[w]) == 1 &&
+				ds[w][0] == v-prev[w] && cs[w][0] == v && dg[w][0] == -v && cg[w][0] == -v
+			if !ok {
+				k.Violate("async-value", "same-named observables of two scopes", fmt.Sprintf("scopes differ by %s; cycle %d, scope %d observes %d (previous %d): delta sums %v (want [%d]), cumulative sums %v (want [%d]), delta gauges %v, cumulative gauges %v (want [%d])",
+					[]string{"version", "schema URL", "attributes"}[how], cyc, w, v, prev[w], ds[w], v-prev[w], cs[w], v, dg[w], cg[w], -v), nil)
+				return
+			}
+			prev[w] = v
+		}
+		cur[0].Add(int64(1 + r.Intn(5)))
+		cur[1].Add(int64(r.Intn(3))) // sometimes unchanged: a zero delta is still reported
+	}
+	k.C.Count("twin_scope_cases", 1)
+	k.C.Sig(fmt.Sprintf("twin-scopes|%d", how))
+}
+
 func runConcurrentCreate(k *vf.Case) {
 	r := k.R
 	ctx := context.Background()
@@ -1263,6 +1361,8 @@ func main() {
 		c.Cases("wide", c.N(48, 600), 0, runWide)
 		c.Cases("concurrent", c.N(200, 3000), 4, runConcurrent)
 		c.Cases("concurrent-create", c.N(3000, 40_000), 0, runConcurrentCreate)
+		c.Cases("twin-scopes", c.N(1500, 20_000), 0, runTwinScopes)
+		c.Floor("twin_scope_cases", 500)
 		c.Floor("concurrent_create_cases", 1000)
 		c.Cases("interrupted", c.N(600, 8000), 0, runInterrupted)
 		c.Floor("interrupted_histories_with_failed_attempts", 200)
